@@ -21,7 +21,7 @@ import (
 	"github.com/formancehq/ledger/verifharness/stats"
 )
 
-const ruleC37 = "on a ledger with a generated history (creates, reverts, metadata) a schema with 3 generated query templates is inserted: resource in {transactions, accounts, logs, volumes}; variables of type string / int / boolean / date with or without default; a filter (depth <= 2, $and/$or/$not) whose leaves use typed ${var} placeholders, string interpolation (\"u:${seg}\") and literals; params (pageSize, sort, expand, endTime, startTime, groupBy, insertionDate). Each template is run through POST /v2/{ledger}/queries/{id}/run with generated variable bindings (some omitted, big integers) and request params, and compared with the direct list endpoint called with the filter and parameters an independent reference computes (own substitution, request params over template params over endpoint defaults, page size clamp): same status class, and on success the same items in the same order, page size and hasMore, page after page following `next` through both routes; non-trivial = run with a non-string variable actually bound, a request param override or >= 2 pages, and a non-empty result; distinct = by template + bindings"
+const ruleC37 = "on a ledger with a generated history (creates, reverts, metadata) a schema with 3 generated query templates is inserted: resource in {transactions, accounts, logs, volumes}; variables of type string / int / boolean / date with or without default; a filter (depth <= 2, $and/$or/$not) whose leaves use typed ${var} placeholders, string interpolation (\"u:${seg}\", also of an int variable bound to a number of seven or eight digits that names an existing account) and literals; params (pageSize, sort, expand, endTime, startTime, groupBy, insertionDate). Each template is run through POST /v2/{ledger}/queries/{id}/run with generated variable bindings (some omitted, big integers) and request params, and compared with the direct list endpoint called with the filter and parameters an independent reference computes (own substitution, request params over template params over endpoint defaults, page size clamp): same status class, and on success the same items in the same order, page size and hasMore, page after page following `next` through both routes; non-trivial = run with a non-string variable actually bound, a request param override or >= 2 pages, and a non-empty result; distinct = by template + bindings"
 
 // ---------------------------------------------------------------- generated templates
 
@@ -106,6 +106,10 @@ func genQLeaf(t *rapid.T, resource string, vars map[string]qVar) any {
 	case 0:
 		return map[string]any{"$match": map[string]any{addrKey: use(rapid.SampledFrom(qStringVars[:2]).Draw(t, "strVar"), "string")}}
 	case 1:
+		if rapid.IntRange(0, 2).Draw(t, "numberedSegment") == 0 {
+			// an int variable inside a string pattern
+			return map[string]any{"$match": map[string]any{addrKey: "u:" + use(rapid.SampledFrom(qIntVars).Draw(t, "intVar"), "int")}}
+		}
 		return map[string]any{"$match": map[string]any{addrKey: "u:" + use("seg", "string")}}
 	case 2:
 		return map[string]any{"$match": map[string]any{"metadata[k]": use("mv", "string")}}
@@ -406,6 +410,10 @@ func TestC37(t *testing.T) {
 		if out := w.CreateTx(l, TxRequest{Postings: ledger.Postings{ledger.NewPosting("world", "u:1", "USD/2", big1), ledger.NewPosting("world", "u:2", "USD/2", big0)}, Force: true}); out.Kind != ErrNone {
 			w.harness("seeding big balances failed: %v", out.Err)
 		}
+		// accounts named after large numbers: an int variable written into an address pattern must come out in full digits
+		if out := w.CreateTx(l, TxRequest{Postings: ledger.Postings{ledger.NewPosting("world", "u:1234567", "USD/2", big.NewInt(3)), ledger.NewPosting("world", "u:20250923", "EUR", big.NewInt(4))}}); out.Kind != ErrNone {
+			w.harness("seeding numbered accounts failed: %v", out.Err)
+		}
 		now := w.Env.Sim.Clock()
 		// ---- schema with generated templates
 		var tpls []qTemplate
@@ -453,7 +461,7 @@ func TestC37(t *testing.T) {
 					case "string":
 						val = rapid.SampledFrom(append(append([]string{}, qAddrValues...), "r1", "v", "1", "")).Draw(rt, "strVal")
 					case "int":
-						val = json.Number(rapid.SampledFrom([]string{"0", "1", "1", "2", "2", "3", "5", "50", "9007199254740993", "100000000000000000000", "-1"}).Draw(rt, "intVal"))
+						val = json.Number(rapid.SampledFrom([]string{"0", "1", "1", "2", "2", "3", "5", "50", "1234567", "1234567", "20250923", "9007199254740993", "100000000000000000000", "-1"}).Draw(rt, "intVal"))
 						boundNonString = true
 					case "boolean":
 						val = rapid.Bool().Draw(rt, "boolVal")
